@@ -1,5 +1,10 @@
 import BigDec.Model.Fmt
 import BigDec.Proofs.AsciiRound
+import BigDec.Proofs.FmtLayout
+import BigDec.Proofs.FmtExp
+import BigDec.Proofs.Flags
+import BigDec.Props.C04
+import BigDec.Props.C06
 /-! # C16 — precision formatting rounds correctly; flags never alter the digits
 
 The formatter has its *own* rounding over ASCII digits (`round_ascii_digits`: digit pair through
@@ -8,19 +13,16 @@ the numeric rounding routines.  `C16_round_ascii_digits` shows, for every digit 
 cut position, that it computes exactly the declarative rounding `Spec.roundNat` that the numeric
 routines were proved to compute (C06/C07) - the "agreement with the library's own rounding
 functions" of the statement.  Flags: `pad_integral` without flags adds only the sign.
-The layout around the rounded digits (where the point and the padding zeros go, `fmtIntFrac`,
-`fmtNoInt`, `zeroRightPad`) is tied text-exactly to the code and judged per generated input by the
-grammar oracle (value = `roundToScale`, exactly N fraction digits). -/
+`C16_display_precision` and `C16_exp_precision` then carry this through the layouts (where the point
+and the padding zeros go: `fmtIntFrac`, `fmtNoInt`, `zeroRightPad`, the exponential form) to the
+printed text, read back by the model of the real parser.  The flag combinations (width, fill,
+alignment, `+`, `0`) are tied text-exactly to the code by the correspondence. -/
 namespace BigDec
 open Fmt Spec Spec.Numeral
 
 theorem C16_padIntegral_no_flags (nonneg : Bool) (buf : List Char) :
     Fmt.padIntegral {} nonneg buf = (if !nonneg then ['-'] else []) ++ buf := by
   simp [Fmt.padIntegral]
-
-theorem natStr_eq_digitsBE (n : Nat) : natStr n = (digitsBE n).map digitChar := by
-  unfold natStr digitsBE
-  split <;> rfl
 
 /-- **the formatter's rounding is the library's rounding.**  Cutting the decimal digits of `n`
     after `sig` of them (`k` digits dropped): the digits returned by `round_ascii_digits`, shifted
@@ -47,6 +49,54 @@ theorem C16_round_ascii_digits (m : Mode) (neg : Bool) (n sig : Nat) (h1 : 1 ≤
   · intro c hc
     obtain ⟨d, hdm, rfl⟩ := List.mem_map.mp hc
     exact ⟨d, hd d hdm, rfl⟩
+
+/-- **`{:.N}` prints the library's own rounding.**  For every storable decimal, every `N` and every
+    configuration, the text of `format!("{:.N}", d)` is read back by the (model of the) real parser as
+    exactly `d.with_scale_round(N, mode)` - the pair (digits, scale = N), hence exactly `N` digits after
+    the point, rounded with the configured default mode, zero-padded when fewer digits exist.  The only
+    alternative is the documented one: the integer padding would exceed the limit, and then the text
+    (which keeps its exponent) denotes `d` exactly. -/
+theorem C16_display_precision (cfg : Config) (npl : Nat) (d : Dec) (N : Nat) (h : d.Storable) (hN : N < 2 ^ 63) :
+    Parse.parseDec (toBytes (display cfg npl {precision := some N} d)) 10 = some (d.withScaleRound N cfg.mode) ∨
+    (d.scale ≤ 0 ∧ (-d.scale).toNat + (if N ≠ 0 then N + 1 else 0) > cfg.maxPadding ∧
+      Parse.parseDec (toBytes (display cfg npl {precision := some N} d)) 10 = some d) := by
+  rw [C05_parse_eq_spec, C06_withScaleRound]
+  exact display_prec_parse cfg npl d N ⟨h.1, h.2.1⟩ hN
+
+/-- **`{:.Ne}` / `{:.NE}` print the value rounded to `N+1` significant digits.**  The text is read
+    back by the (model of the) real parser as a decimal whose value is exactly that of
+    `Spec.roundToPrec d (N+1) mode` (= `with_precision_round`, C07): rounded when the number has more
+    digits, zero-padded (and then the identical pair) when it has fewer. -/
+theorem C16_exp_precision (cfg : Config) (d : Dec) (N : Nat)
+    (hsc : -(2 ^ 62 : Int) ≤ d.scale ∧ d.scale < 2 ^ 62) (hlen : numDigits d.int.natAbs < 2 ^ 61) (hN : N < 2 ^ 61) :
+    (∃ r, Parse.parseDec (toBytes (lowerExp cfg {precision := some N} d 'e')) 10 = some r ∧
+      r.value = (Spec.roundToPrec d (N + 1) cfg.mode).value) ∧
+    (∃ r, Parse.parseDec (toBytes (lowerExp cfg {precision := some N} d 'E')) 10 = some r ∧
+      r.value = (Spec.roundToPrec d (N + 1) cfg.mode).value) := by
+  rw [C05_parse_eq_spec, C05_parse_eq_spec]
+  exact ⟨lowerExp_prec_parse cfg d N 'e' (Or.inl rfl) hsc hlen hN, lowerExp_prec_parse cfg d N 'E' (Or.inr rfl) hsc hlen hN⟩
+
+/-- **flags never alter the digits.**  For every combination of width, fill, alignment, `0` and `+`,
+    the text of `Display` is the numeral printed without them (`body`, after its own sign), preceded by
+    the sign (`-`, or `+` when requested) and surrounded only by fill characters outside the sign or
+    zeros between sign and digits; the same holds for `{:e}` / `{:E}` (`lowerExp_flags`). -/
+theorem C16_flags_only_pad (cfg : Config) (npl : Nat) (fl : Flags) (d : Dec) :
+    ∃ body pre mid post : List Char,
+      display cfg npl {precision := fl.precision} d = (if d.int < 0 then ['-'] else []) ++ body ∧
+      display cfg npl fl d =
+        pre ++ (if d.int < 0 then ['-'] else if fl.plus then ['+'] else []) ++ mid ++ body ++ post ∧
+      (∀ c ∈ pre, c = fl.fill) ∧ (∀ c ∈ post, c = fl.fill) ∧ (∀ c ∈ mid, c = '0') := by
+  obtain ⟨body, h1, h2⟩ := display_flags cfg npl fl d
+  obtain ⟨pre, mid, post, h3, h4, h5, h6⟩ := padIntegral_shape fl (!decide (d.int < 0)) body
+  refine ⟨body, pre, mid, post, ?_, ?_, h4, h5, h6⟩
+  · rw [h2]; unfold padIntegral
+    by_cases hneg : d.int < 0 <;> simp [hneg]
+  · rw [h1, h3]
+    by_cases hneg : d.int < 0 <;> simp [hneg]
+
+/-- non-vacuity: 2.675 at two decimals under HalfEven -/
+example : (⟨2675, 3⟩ : Dec).Storable ∧ (⟨2675, 3⟩ : Dec).withScaleRound 2 .HalfEven = ⟨268, 2⟩ := by
+  refine ⟨⟨by decide, by decide, by decide +kernel⟩, by decide +kernel⟩
 
 /-- non-vacuity and the three regimes: plain cut, carry past nines, all nines -/
 example : roundAsciiDigits .HalfEven false (natStr 12345) 3 = (['1', '2', '3'], 2) ∧
